@@ -20,11 +20,9 @@ func AllStrings(strings []string, predicate func(str string) bool) bool {
 
 // ContainsString returns true if strings contains str
 func ContainsString(strings []string, str string) bool {
-	if str != `` {
-		for _, v := range strings {
-			if v == str {
-				return true
-			}
+	for _, v := range strings {
+		if v == str {
+			return true
 		}
 	}
 	return false
